@@ -5,7 +5,8 @@
    `parseUntrusted` (SHA-256 = `Hash.sha256`), every accepted event goes through the accessor sweep of
    `VModel.EventAccessors` (`touched`, what the harness' `touchAccessors` calls), the accepted events go through the
    panic-explicit orderings and both state-resolution entry points of `VModel.StateResPanic` exactly as the harness
-   feeds them, then the first event is signed (when `sigsDecodable`), redacted and swept again.  The model outcome is `nopanic` or `panic:<site>`; the
+   feeds them, then the event `SetUnsigned` returns for the first event is swept, the first event is signed (unconditionally),
+   the signed event swept, redacted and swept again.  The model outcome is `nopanic` or `panic:<site>`; the
    specification outcome is always `nopanic` (C18).  A model panic where the implementation does not panic is a broken
    tie (the model has a site the code lacks); an implementation panic is a violation whatever the model says. -/
 import VDriver.Util
@@ -51,25 +52,32 @@ def eventOp (args : Array String) : Option String := do
       fun _ => if sevs.isEmpty then none else siteOf (resolveConflictsNewP (fun _ => []) ver [sevs.take half, sevs] vs []),
       fun _ => if sevs.isEmpty then none else siteOf (resolveConflictsOldP (fun _ => []) ver sevs vs []),
       fun _ =>
-        -- Sign() in place when the precondition of `no_panic_sign` holds (the signature value does not matter here),
-        -- then Redact() and the sweep on the redacted event
-        let signed : Except Err PDU := if sigsDecodable first then sign first b!"me" b!"ed25519:1" b!"c2ln" else .ok first
-        match signed with
+        -- SetUnsigned() on the first event: the accessor sweep on the event it returns
+        match setUnsigned first (.obj [(b!"a", .num b!"1")]) with
+        | .ok u => touched.findSome? (fun a => panicSite H a u)
+        | .error _ => none,
+      fun _ =>
+        -- Sign() on the first event, WHATEVER its `signatures` member is (the signature value does not matter here), the
+        -- sweep on the event it returns, then Redact() and the sweep on the redacted event
+        match sign first b!"me" b!"ed25519:1" b!"c2ln" with
         | .error (.panic s) => some s
         | r =>
           let e1 := match r with
             | .ok x => x
             | .error _ => first
-          match redact e1 with
-          | .error (.panic s) => some s
-          | .error _ => none
-          | .ok e' => touched.findSome? (fun a => panicSite H a e')]
+          match touched.findSome? (fun a => panicSite H a e1) with
+          | some s => some s
+          | none =>
+            match redact e1 with
+            | .error (.panic s) => some s
+            | .error _ => none
+            | .ok e' => touched.findSome? (fun a => panicSite H a e')]
     match site with
     | some s => some ("panic:" ++ s ++ "\tnopanic")
     | none => some "nopanic\tnopanic"
   | none => some "nopanic\tnopanic"
 
-/-- replay-only op: `Sign()` on an accepted event without the precondition of `no_panic_sign` (defect D1) -/
+/-- `Sign()` alone on whatever the untrusted constructor accepts (corpus witnesses of defect D1) -/
 def signOp (args : Array String) : Option String := do
   let ver := strBytes (← args[0]?)
   let text ← unhex (← args[1]?)
